@@ -33,12 +33,14 @@ type c37Op struct {
 }
 
 type c37Plan struct {
-	N        uint     `json:"n"`
-	Rate     float64  `json:"rate"`
-	WindowMs int      `json:"window_ms"`
-	ReadOnly bool     `json:"read_only"`
-	Items    []string `json:"items"` // Go-quoted
-	Ops      []c37Op  `json:"ops"`
+	N             uint     `json:"n"`
+	Rate          float64  `json:"rate"`
+	WindowMs      int      `json:"window_ms"`
+	WindowExtraUs int      `json:"window_extra_us,omitempty"` // window = WindowMs ms + WindowExtraUs us
+	Steady        bool     `json:"steady"`                    // steady traffic instead of calls aimed at the nominal rotation instants
+	ReadOnly      bool     `json:"read_only"`
+	Items         []string `json:"items"` // Go-quoted
+	Ops           []c37Op  `json:"ops"`
 }
 
 type c37Obs struct {
@@ -52,31 +54,52 @@ type c37Obs struct {
 
 func genC37Plan(rt *rapid.T) c37Plan {
 	var p c37Plan
-	for try := 0; ; try++ {
-		p.N, p.Rate = probConfig(rt, 1<<16)
-		if _, k := probSizing(p.N, p.Rate); (k > 0 && k <= 64) || (k == 0 && try >= 2) {
+	for {
+		p.N, p.Rate = probConfig(rt, 1<<16, 0)
+		if _, k := probSizing(p.N, p.Rate); k <= 64 {
 			break
 		}
 	}
+	// every window of at least one second is accepted: whole seconds, fractional seconds (1.9 s, 2.5 s,
+	// 3.999 s), odd millisecond counts and (WindowExtraUs) windows that are not whole milliseconds
 	p.WindowMs = rapid.OneOf(
-		rapid.SampledFrom([]int{1000, 1000, 1001, 1500, 2000, 3333, 10000, 60000}),
+		rapid.SampledFrom([]int{1000, 1001, 1500, 1900, 1999, 2000, 2500, 2999, 3333, 3999, 10000, 59999, 60000}),
+		rapid.IntRange(1000, 4999),
 		rapid.IntRange(1000, 60000),
 	).Draw(rt, "windowMs")
+	if rapid.IntRange(0, 4).Draw(rt, "subMs") == 3 {
+		p.WindowExtraUs = rapid.IntRange(1, 999).Draw(rt, "windowExtraUs")
+	}
 	p.ReadOnly = rapid.IntRange(0, 2).Draw(rt, "readOnly") == 1
 	p.Items = probItems(rt, 1, 12)
 	h := p.WindowMs / 2
+	guarantee := h - 2 // ms after an add during which the oracle demands presence
+	// two kinds of schedules: "aimed" puts calls a few ms before and after the instants at which the
+	// rotation lock (taken for half a window at every rotation) expires; "steady" is traffic with gaps far
+	// below half a window, so that the filter rotates as early as it can, whatever its period is, and
+	// queries ask for the oldest items that are still inside their guaranteed half window
+	p.Steady = rapid.IntRange(0, 1).Draw(rt, "steady") == 1
 	gap := rapid.OneOf(
 		rapid.SampledFrom([]int{0, 0, 1, 2, h / 4, h / 2, h - 3, h - 2, h - 1, h, h + 1, 2 * h, 2*h + 1}),
 		rapid.IntRange(0, h),
 		rapid.IntRange(0, h/8),
 		rapid.IntRange(0, 3*h),
 	)
-	nOps := rapid.IntRange(2, 25).Draw(rt, "nOps")
+	maxOps := 25
+	if p.Steady {
+		maxOps = 45
+		gap = rapid.OneOf(rapid.SampledFrom([]int{h / 12, h / 10, h / 8, h / 6, h / 5, h / 4, h / 3}), rapid.IntRange(1, max(2, h/6)), rapid.IntRange(0, max(2, h/3)))
+	}
+	nOps := rapid.IntRange(2, maxOps).Draw(rt, "nOps")
+	if p.Steady {
+		nOps = max(nOps, rapid.IntRange(10, maxOps).Draw(rt, "nOpsSteady"))
+	}
 	kinds := []string{"add", "add", "add", "addmulti", "exists", "exists", "exists", "existsmulti", "existsmulti", "add", "exists", "count", "reset", "delete"}
+	lastAdd := map[int]int{} // item -> instant of its latest add since the last Reset/Delete
 	var added []int
 	anyKey := func() int { return rapid.IntRange(0, len(p.Items)-1).Draw(rt, "key") }
-	// the generator follows the rotation schedule (a script call at or after the expiry of the lock taken
-	// h ms after the previous rotation rotates) only to aim calls at both sides of a rotation
+	// the generator follows the nominal rotation schedule (a script call at or after the expiry of the lock
+	// taken h ms after the previous rotation rotates) only to aim calls at both sides of a rotation
 	now, lockExp, destructive := 0, h, 0
 	for i := 0; i < nOps; i++ {
 		op := c37Op{Kind: rapid.SampledFrom(kinds).Draw(rt, "kind")}
@@ -89,7 +112,11 @@ func genC37Plan(rt *rapid.T) c37Plan {
 		if toRotation < 0 {
 			toRotation = 0
 		}
-		switch rapid.IntRange(0, 5).Draw(rt, "gapKind") {
+		gapKind := rapid.IntRange(0, 5).Draw(rt, "gapKind")
+		if p.Steady {
+			gapKind = 0
+		}
+		switch gapKind {
 		case 1, 4:
 			// shortly before the next rotation
 			op.GapMs = toRotation - rapid.SampledFrom([]int{1, 1, 2, 5, h / 16, h / 8, h / 4}).Draw(rt, "before")
@@ -109,15 +136,27 @@ func genC37Plan(rt *rapid.T) c37Plan {
 		key := anyKey
 		if op.Kind == "exists" || op.Kind == "existsmulti" {
 			key = func() int {
-				if len(added) > 0 && rapid.IntRange(0, 4).Draw(rt, "queryAdded") != 2 {
-					// prefer recent adds: they are the ones still inside the guaranteed half window
-					lo := 0
-					if len(added) > 3 && rapid.IntRange(0, 2).Draw(rt, "recent") != 1 {
-						lo = len(added) - 3
+				switch v := rapid.IntRange(0, 5).Draw(rt, "queryWhat"); {
+				case len(added) == 0 || v == 2:
+					return anyKey()
+				case v == 1 || v == 3 || (p.Steady && v != 4):
+					// the item whose latest add is the oldest one still covered by the guarantee
+					best, bestAge := -1, -1
+					for it := range p.Items {
+						if at, ok := lastAdd[it]; ok && now-at <= guarantee && now-at > bestAge {
+							best, bestAge = it, now-at
+						}
 					}
-					return added[rapid.IntRange(lo, len(added)-1).Draw(rt, "addedKey")]
+					if best >= 0 {
+						return best
+					}
 				}
-				return anyKey()
+				// a recent add
+				lo := 0
+				if len(added) > 3 && rapid.IntRange(0, 2).Draw(rt, "recent") != 1 {
+					lo = len(added) - 3
+				}
+				return added[rapid.IntRange(lo, len(added)-1).Draw(rt, "addedKey")]
 			}
 		}
 		switch op.Kind {
@@ -133,12 +172,19 @@ func genC37Plan(rt *rapid.T) c37Plan {
 		switch op.Kind {
 		case "add", "addmulti":
 			added = append(added, op.Keys...)
+			for _, it := range op.Keys {
+				lastAdd[it] = now
+			}
 		case "reset", "delete":
-			added = nil
+			added, lastAdd = nil, map[int]int{}
 		}
 		p.Ops = append(p.Ops, op)
 	}
 	return p
+}
+
+func c37Window(p c37Plan) time.Duration {
+	return time.Duration(p.WindowMs)*time.Millisecond + time.Duration(p.WindowExtraUs)*time.Microsecond
 }
 
 func c37Run(t *testing.T, plan c37Plan) (res bubble.Result, ctorErr string, obs []c37Obs, panicked string, events []fakeredis.Event) {
@@ -159,7 +205,7 @@ func c37Run(t *testing.T, plan c37Plan) (res bubble.Result, ctorErr string, obs 
 				opts = append(opts, rueidisprob.WithReadOnlyExists(true))
 			}
 			start := time.Now()
-			bf, err := rueidisprob.NewSlidingBloomFilter(client, "sbf", plan.N, plan.Rate, time.Duration(plan.WindowMs)*time.Millisecond, opts...)
+			bf, err := rueidisprob.NewSlidingBloomFilter(client, "sbf", plan.N, plan.Rate, c37Window(plan), opts...)
 			if err != nil {
 				ctorErr = errText(err)
 				return
@@ -224,7 +270,7 @@ func c37Check(c *stat.Collector, rt stat.Fataler, plan c37Plan, res bubble.Resul
 		sort.Strings(classes)
 	}()
 	m, k := probSizing(plan.N, plan.Rate)
-	window := time.Duration(plan.WindowMs) * time.Millisecond
+	window := c37Window(plan)
 	cfg := fmt.Sprintf("n=%d rate=%v (m=%d bits, k=%d hash functions) window=%v", plan.N, plan.Rate, m, k, window)
 	if panicked != "" || res.Panic != nil {
 		c.Fail(rt, "C37.no-panic", cfg+": "+panicked+res.String(), plan)
@@ -243,7 +289,6 @@ func c37Check(c *stat.Collector, rt stat.Fataler, plan c37Plan, res bubble.Resul
 	if ctorErr != "" {
 		c.Fail(rt, "C37.accepted-domain", fmt.Sprintf("NewSlidingBloomFilter with %s failed: %s", cfg, ctorErr), plan)
 	}
-	zeroKnown := k == 0 && c.Known("C37.zero-hash-functions")
 	type addRec struct {
 		at time.Duration
 		lr string
@@ -273,7 +318,7 @@ func c37Check(c *stat.Collector, rt stat.Fataler, plan c37Plan, res bubble.Resul
 		if age >= guarantee-3*time.Millisecond {
 			cls["query-within-3ms-of-the-guarantee-limit"] = true
 		}
-		if !got && !zeroKnown {
+		if !got {
 			c.Fail(rt, "C37.present-for-half-window", fmt.Sprintf("%s: item %s (position %d) was added by op %d at +%v, the query at +%v is %v later (half window %v), no Reset/Delete in between, yet it is reported absent; rotation stamp at the add %q, now %q", where, plan.Items[key], pos, a.op, a.at, o.At, age, window/2, a.lr, o.LR), plan)
 		}
 	}
@@ -333,8 +378,6 @@ func c37Check(c *stat.Collector, rt stat.Fataler, plan c37Plan, res bubble.Resul
 		cls["rotations>=3"] = true
 	}
 	switch {
-	case k == 0:
-		cls["k=0"] = true
 	case k == 1:
 		cls["k=1"] = true
 	default:
@@ -346,17 +389,27 @@ func c37Check(c *stat.Collector, rt stat.Fataler, plan c37Plan, res bubble.Resul
 	if plan.WindowMs%2 == 1 {
 		cls["odd-window-ms"] = true
 	}
+	if plan.WindowMs%1000 != 0 || plan.WindowExtraUs != 0 {
+		cls["window-not-whole-seconds"] = true
+		if plan.WindowMs < 5000 {
+			cls["window-not-whole-seconds,below-5s"] = true
+		}
+	}
+	if plan.WindowExtraUs != 0 {
+		cls["window-not-whole-ms"] = true
+	}
+	cls[map[bool]string{true: "schedule=steady-traffic", false: "schedule=aimed-at-rotations"}[plan.Steady]] = true
 	if guarded {
 		cls["query-inside-guaranteed-half-window"] = true
 	}
 	if rotated {
 		cls["rotation-between-add-and-guarded-query"] = true
 	}
-	return rotated && !zeroKnown, nil, false
+	return rotated, nil, false
 }
 
 func TestVerif_C37_SlidingBloom(t *testing.T) {
-	c := stat.For("C37", "sliding-bloom").Rule("single client in a synctest bubble; the fake server runs the filter's real Lua scripts and answers TIME / expires the rotation lock on the bubble's virtual clock; windows 1-60 s (odd millisecond counts included), configurations over the accepted domain (k<=64, bitmap <= 2^16 bits, a few k=0), with and without WithReadOnlyExists; 2-25 timed calls from {Add, AddMulti, Exists, ExistsMulti, Count, rarely Reset/Delete} with gaps drawn around 0, 1/8, 1/4, 1/2 and 1 half-window (+-1..3 ms) up to 3 half-windows, queries aimed at recently added items; oracle: for the latest successful add of an item at t and a query at t' with t'-t <= window/2 - 2 ms and no Reset/Delete in between the item is reported present (Exists and the matching ExistsMulti position); non-trivial = the rotation stamp (value of the last-rotation key, rewritten only by a rotation) changed between that add and that query")
+	c := stat.For("C37", "sliding-bloom").Rule("single client in a synctest bubble; the fake server runs the filter's real Lua scripts and answers TIME / expires the rotation lock on the bubble's virtual clock; windows 1-60 s: whole seconds, fractional seconds (1.5 s, 1.9 s, 1.999 s, 2.5 s, 3.999 s, uniform 1-5 s and 1-60 s in ms), odd millisecond counts and 20% with a sub-millisecond part; configurations over the accepted domain (k<=64, bitmap <= 2^16 bits), with and without WithReadOnlyExists; half of the plans 2-25 timed calls from {Add, AddMulti, Exists, ExistsMulti, Count, rarely Reset/Delete} with gaps aimed a few ms before/after the nominal rotation instants and around 0, 1/8, 1/4, 1/2 and 1 half-window up to 3 half-windows, the other half 2-45 calls of steady traffic (gaps of at most 1/3 half-window, mostly below 1/6) that lets the filter rotate as early as it can; queries prefer the item whose latest add is the oldest still inside the guaranteed half window, else recently added items; oracle: for the latest successful add of an item at t and a query at t' with t'-t <= window/2 - 2 ms and no Reset/Delete in between the item is reported present (Exists and the matching ExistsMulti position); non-trivial = the rotation stamp (value of the last-rotation key, rewritten only by a rotation) changed between that add and that query")
 	defer c.Flush()
 	rapid.Check(t, func(rt *rapid.T) {
 		plan := genC37Plan(rt)
